@@ -63,12 +63,54 @@ def run(ctx, theorem):
                         c['entry'], c['q'], c['hdr'], json.dumps(c['A']), json.dumps(e), json.dumps(g)[:400]))
     ctx.count(2 * len(cases))
     ctx.stat('sqlite_rfc_cases', len(cases))
+    run_mono(ctx, theorem)
     for c in cases:
         if any('\n' in x for row in c['A'] for x in row):
             ctx.nontriv(('c13s', c['q'], json.dumps(c['A'])))
 
 
+def run_mono(ctx, theorem):
+    """the monocolumn dialect through the library and the command line: one field per line, no delimiter at all"""
+    r = ctx.rng
+    cases = []
+    for _ in range(25 if ctx.tier == 'quick' else 2000):
+        lines = [r.choice(['a', 'b c', 'x,y', 'q"r', 'tab\there', '7', 'é']) for _ in range(r.randint(1, 4))]
+        form = r.choice(['id', 'cat', 'where'])
+        if form == 'id':
+            q, qa = 'select a1', {'kind': ('select', [('expr', ('fld', 'a', 0))]), 'where': None, 'join': None}
+        elif form == 'cat':
+            q, qa = 'select a1 + "!"', {'kind': ('select', [('expr', ('add', ('fld', 'a', 0), ('lit', '!')))]), 'where': None, 'join': None}
+        else:
+            q, qa = 'select a1 where a1 != "a"', {'kind': ('select', [('expr', ('fld', 'a', 0))]), 'where': ('ne', ('fld', 'a', 0), ('lit', 'a')), 'join': None}
+        cases.append({'q': q, 'qa': qa, 'lines': lines, 'part': 'c13mono'})
+    res = lib.run_model(300, [qmodel.enc_run(0, c['qa'], None, [[l] for l in c['lines']], None, None) for c in cases])
+    exp = []
+    for m in res:
+        o = qmodel.dec_outcome(m)
+        exp.append(''.join(str(e[1][0]) + '\n' for e in o['events'] if e[0] == 'W'))
+    got = lib.run_impl_py('c13s', cases, shards=8, extra_env={'VERIF_SCRATCH': lib.BUILD}, timeout=3000)
+
+    def rel(c, e, g):
+        if not isinstance(g, dict):
+            return False
+        return (g.get('lib', {}).get('text') == e and all(g.get(n, {}).get('rc') == 0 and g[n].get('text') == e for n in ('cli_file', 'cli_stdin')))
+    ctx.compare(cases, exp, got, theorem + ' (monocolumn: library and command line)', rel=rel,
+                describe=lambda c, e, g: 'monocolumn: query %r over lines %s: model output %r, entry points %s' % (c['q'], json.dumps(c['lines']), e, json.dumps(g)[:500]),
+                corrupt=lambda e: e + 'CANARY\n')
+    ctx.count(3 * len(cases))
+    ctx.stat('monocolumn_cli_cases', len(cases))
+
+
 def replay(ctx, case, theorem):
+    if case.get('part') == 'c13mono':
+        m = lib.run_model(300, [qmodel.enc_run(0, case['qa'], None, [[l] for l in case['lines']], None, None)])[0]
+        o = qmodel.dec_outcome(m)
+        e = ''.join(str(x[1][0]) + '\n' for x in o['events'] if x[0] == 'W')
+        g = lib.run_impl_py('c13s', [case], shards=1, extra_env={'VERIF_SCRATCH': lib.BUILD})[0]
+        ok = isinstance(g, dict) and g.get('lib', {}).get('text') == e and all(g.get(n, {}).get('rc') == 0 and g[n].get('text') == e for n in ('cli_file', 'cli_stdin'))
+        ctx.count()
+        ctx.compare([case], [e], [g], theorem, rel=lambda c, e_, g_: ok)
+        return
     name = case.get('entry', 'cli_sqlite')
     c = {k: v for k, v in case.items() if k != 'entry'}
     g = lib.run_impl_py('c13s', [c], shards=1, extra_env={'VERIF_SCRATCH': lib.BUILD})[0]
